@@ -47,13 +47,14 @@ GROUPS = {
         "model_map": False,
         "panic_property": "C01",
         "functions": ["Story::calculate_newline_output_state_change"],
-        "bounds": ("prev/curr: ASCII byte strings of symbolic length <= N with symbolic contents, N = 3 (quick), 6 and 10 "
+        "bounds": ("prev/curr: ASCII byte strings of symbolic length <= N with symbolic contents, N = 3 and 6 (quick), 10 and 16 "
                    "(thorough); plus the append shape prev = p, curr = p + a with |p| <= 8, |a| <= 8; tag counts: all i32 pairs; "
                    "unwind N+2; non-ASCII text is outside the bound"),
         "roles": {
             "nl_len_le_3": "line-end decision, independent prev/curr, each <= 3 ASCII bytes, all tag counts",
             "nl_len_le_6": "line-end decision, independent prev/curr, each <= 6 ASCII bytes, all tag counts",
             "nl_len_le_10": "line-end decision, independent prev/curr, each <= 10 ASCII bytes, all tag counts",
+            "nl_len_le_16": "line-end decision, independent prev/curr, each <= 16 ASCII bytes, all tag counts",
             "nl_append_8_8": "line-end decision, curr = prev + appended text, |prev| <= 8, |appended| <= 8",
         },
     },
@@ -126,7 +127,7 @@ GROUPS = {
         ],
         "bounds": ("universe LIST A = x, y; LIST B = x, z (item name x declared in both lists) with all four item values symbolic i32; operand lists of concrete "
                    "membership (sizes 0..4) and concrete insertion order; order independence checked on every non-identity "
-                   "permutation of every 2- and 3-item list; list +/- n with |n| < 4 and |value| < 1000 for the value oracle "
+                   "permutation of every 2- and 3-item list, six permutations of the 4-item list (thorough); list +/- n with |n| < 4 and |value| < 1000 for the value oracle "
                    "(full i32 for the no-panic obligation); unwind 8"),
         "stubs": ["alloc::fmt::format"],
     },
@@ -222,6 +223,14 @@ GROUPS = {
                   "ink_list_write_two_items": "list value writer on (A.x = x, B.x = y), all i32 x, y",
                   "choice_write_indices": "pending-choice writer, index and originalThreadIndex symbolic (all usize), text/paths concrete"},
     },
+    "thread_write": {
+        "pkg": "bladeink", "inject": "runtime/src/callstack.rs", "modpath": "callstack", "files": ["thread_write.rs"],
+        "requires": ["pub(crate) fn write_json(&self) -> Result<serde_json::Value, StoryError>", "pub struct Thread"],
+        "model_map": True, "panic_property": "C02",
+        "functions": ["Thread::write_json", "Element::new", "PushPopType::from_value"], "stubs": ["serde_json::Map::insert"],
+        "bounds": "one thread with one frame: frame kind symbolic over the three kinds, exp symbolic, threadIndex all usize; null pointer, no temporaries",
+        "roles": {"thread_write_one_frame": "call-stack thread writer: exp, type code, threadIndex of a single frame"},
+    },
 }
 
 
@@ -311,6 +320,14 @@ def sel_obj(tier, seed, names):
     return rot(prove, seed, 12) + rot(hunt, seed, 8)
 
 
+def sel_c03(tier, seed, names):
+    base = [n for n in names if n.startswith("c03_")]
+    wide = [n for n in names if n.startswith("c03w_")]
+    if tier == "thorough":
+        return base + wide
+    return rot(base, seed, 16)
+
+
 def sel_list(prefix, quick_n):
     def f(tier, seed, names):
         mine = [n for n in names if n.startswith(prefix)]
@@ -322,7 +339,7 @@ def sel_list(prefix, quick_n):
 
 PROPS = {
     "C03": {
-        "groups": {"list_ops": sel_list("c03_", 16)},
+        "groups": {"list_ops": sel_c03},
         "outside": ("RANDOM, shuffles, LIST_RANDOM (inside Story, RNG not encodable), order of globals/visit counts in saves, "
                     "compiler output byte-identity, cross-process/cross-profile equality of whole transcripts"),
         "assumptions": ["HashMap contract = map with unspecified iteration order; every order is reachable (std randomises per instance)"],
@@ -334,7 +351,7 @@ PROPS = {
         "assumptions": ["texts are ASCII (the function works on bytes; from_utf8_unchecked is sound for ASCII)"],
     },
     "C02": {
-        "groups": {"json_value": sel_prefix("rt_int", "rt_bool"), "count_flags": sel_all, "choice_flags": sel_all, "pushpop": sel_all, "vars_equal": sel_all, "json_dict": sel_all},
+        "groups": {"json_value": sel_prefix("rt_int", "rt_bool"), "count_flags": sel_all, "choice_flags": sel_all, "pushpop": sel_all, "vars_equal": sel_all, "json_dict": sel_all, "thread_write": sel_all},
         "outside": ("flows, threads, call-stack pointers, choices, the variables map, lists, eval-stack order (serde_json::Map / "
                     "Story construction not encodable); the text serialisation of serde_json::Value (to_string / from_str) is trusted"),
         "assumptions": ["serde_json::Value::to_string followed by from_str is the identity on numbers and bools (library contract)"],
